@@ -20,6 +20,8 @@ Definition P_K13 : id := 16%positive. Definition P_K31 : id := 17%positive.
 Definition P_K23 : id := 18%positive. Definition P_K32 : id := 19%positive.
 Definition P_K24 : id := 20%positive. Definition P_K42 : id := 21%positive.
 Definition P_F : id := 22%positive.   Definition P_T : id := 23%positive.
+Definition P_ALPHA : id := 24%positive. Definition P_BETA : id := 25%positive.
+Definition P_GAMMA : id := 26%positive. Definition P_AOB : id := 27%positive.
 
 Definition flow := (nat * nat * expr)%type.     (* from compartment, to compartment (0 = output), rate constant *)
 Definition Sy (x : id) := Sym x.
@@ -86,6 +88,13 @@ Definition param_names (advan trans : nat) : list id :=
   | 11, 4 => [P_CL; P_V1; P_Q2; P_V2; P_Q3; P_V3]
   | 12, 1 => [P_K; P_K23; P_K32; P_K24; P_K42; P_KA]
   | 12, 4 => [P_CL; P_V2; P_Q3; P_V3; P_Q4; P_V4; P_KA]
+  (* TRANS5: AOB, ALPHA, BETA; TRANS6: ALPHA, BETA(, GAMMA) and the peripheral-to-central constants *)
+  | 3, 5 => [P_AOB; P_ALPHA; P_BETA]
+  | 3, 6 => [P_ALPHA; P_BETA; P_K21]
+  | 4, 5 => [P_AOB; P_ALPHA; P_BETA; P_KA]
+  | 4, 6 => [P_ALPHA; P_BETA; P_K32; P_KA]
+  | 11, 6 => [P_ALPHA; P_BETA; P_GAMMA; P_K21; P_K31]
+  | 12, 6 => [P_ALPHA; P_BETA; P_GAMMA; P_K32; P_K42; P_KA]
   | _, _ => []
   end.
 
@@ -102,11 +111,13 @@ Definition valid_trans (advan trans : nat) : bool :=
 (* the role a parameter name plays, independent of the compartment numbering:
    what a rename across ADVANs has to preserve *)
 Inductive role :=
-| RCl | RVc | RVp (k : nat) | RQp (k : nat) | RKel | RKa | RKcp (k : nat) | RKpc (k : nat) | RVss.
+| RCl | RVc | RVp (k : nat) | RQp (k : nat) | RKel | RKa | RKcp (k : nat) | RKpc (k : nat) | RVss
+| RAlpha | RBeta | RGamma | RAob.
 
 Definition role_eqb (a b : role) : bool :=
   match a, b with
-  | RCl, RCl | RVc, RVc | RKel, RKel | RKa, RKa | RVss, RVss => true
+  | RCl, RCl | RVc, RVc | RKel, RKel | RKa, RKa | RVss, RVss
+  | RAlpha, RAlpha | RBeta, RBeta | RGamma, RGamma | RAob, RAob => true
   | RVp i, RVp j | RQp i, RQp j | RKcp i, RKcp j | RKpc i, RKpc j => Nat.eqb i j
   | _, _ => false
   end.
@@ -119,6 +130,8 @@ Definition role_of (advan trans : nat) (x : id) : option role :=
   else if ideq x P_KA then Some RKa
   else if ideq x P_K then Some RKel
   else if ideq x P_VSS then Some RVss
+  else if ideq x P_ALPHA then Some RAlpha else if ideq x P_BETA then Some RBeta
+  else if ideq x P_GAMMA then Some RGamma else if ideq x P_AOB then Some RAob
   else if ideq x P_V then Some RVc
   else if ideq x P_Q then Some (RQp 1)
   else match advan with
